@@ -148,10 +148,17 @@ def run_shard(spec):
         rnd.shuffle(kinds)
         for j, kind in enumerate(kinds[:max(6, spec["count"] // 12)] if spec["tier"] == "quick" else kinds * 3):
             try:
-                host = clicase.build_host(rnd, nfiles=rnd.choice([1, 2]), include=False, nstmt=rnd.randrange(2, 8))
+                host = clicase.build_host(rnd, nfiles=rnd.choice([1, 2]), include=rnd.random() < 0.4, nstmt=rnd.randrange(2, 8))
             except RuntimeError:
                 continue
-            clicase.plant(host, rnd, faults.render(kind, rnd.choice(["\t", "  ", ""])), where=rnd.choice(host["linked"]))
+            # (in a linked file or in an included one: an error that aborts an included file must still end in a report)
+            # (an included file may state a base of its own, and a '. =' in it re-bases it: those two kinds are faults in linked files only)
+            spots = host["linked"] if kind in ("second-link", "backward-skip-late-target") else host["linked"] + host["included"] * 2
+            clicase.plant(host, rnd, faults.render(kind, rnd.choice(["\t", "  ", ""])), where=rnd.choice(spots))
+            for n in host["included"]:
+                os.makedirs(os.path.dirname(os.path.join(root, n)), exist_ok=True)
+                with open(os.path.join(root, n), "w", encoding="utf-8") as fh:
+                    fh.write("\n".join(host["texts"][n]) + "\n")
             files = [[os.path.join(root, n), "\n".join(host["texts"][n]) + "\n"] for n in host["linked"]]
             case = {"files": files, "handler": rnd.choice(["bare", "graphical", "record"]), "cli": False, "root": root,
                     "wctl": rnd.choice(["everything", "default", "nothing", "ids-off"]), "wseed": rnd.randrange(1 << 30), "planted": kind}
